@@ -437,6 +437,15 @@ Definition items_toks (L : list item) : list dtok := flat_map item_toks L.
 Definition text_ok (s : str) : bool := forallb (fun b => negb (N.eqb b LT)) s && utf8_valid s.
 Definition item_ok (it : item) : bool := match it with IText s => text_ok s | IUnit u toks => iso_ok u toks end.
 
+(* the tokens of a raw-text element read in isolation: for an EMPTY content (<script></script>, <title></title>) the
+   tokenizer emits no text token between the start tag and the end tag; [Dom.doc_tokens] has [DOther []] there, which
+   the token automaton does not see ([segs] appends its bytes, i.e. nothing: raw_toks_segs below) *)
+Definition raw_toks (t s : str) : list dtok :=
+  match s with
+  | [] => [DStart (lower t) (open_tag t []); DEnd (lower t) (close_tag t)]
+  | _ :: _ => [DStart (lower t) (open_tag t []); DOther s; DEnd (lower t) (close_tag t)]
+  end.
+
 Fixpoint node_items (n : node) : list item :=
   match n with
   | Elem t a ch => IUnit (open_tag t a) [DStart (lower t) (open_tag t a)] :: flat_map node_items ch
@@ -445,7 +454,7 @@ Fixpoint node_items (n : node) : list item :=
   | SelfClosing t a => [IUnit (self_tag t a) [DSelf (lower t) (self_tag t a)]]
   | Text s => if contains_lt s then [IUnit s [DOther s]] else [IText s]
   | Comment s => [IUnit (comment_open ++ s ++ comment_close) [DOther (comment_open ++ s ++ comment_close)]]
-  | Raw t s => [IUnit (open_tag t [] ++ s ++ close_tag t) [DStart (lower t) (open_tag t []); DOther s; DEnd (lower t) (close_tag t)]]
+  | Raw t s => [IUnit (open_tag t [] ++ s ++ close_tag t) (raw_toks t s)]
   end.
 Definition doc_items (doc : list node) : list item := flat_map node_items doc.
 
@@ -457,23 +466,10 @@ Proof.
     induction IH as [|x l Hx Hl IHl]; [reflexivity|]. cbn [flat_map]. rewrite flat_map_app, Hx, IHl. reflexivity.
   - destruct (contains_lt s); cbn [flat_map item_bytes]; apply app_nil_r.
 Qed.
-Lemma node_items_toks n : items_toks (node_items n) = doc_tokens lower n.
-Proof.
-  induction n as [t a ch IH|t a|t a|s|s|t s] using node_ind2; cbn [node_items doc_tokens]; unfold items_toks in *; cbn [flat_map item_toks app];
-    try reflexivity.
-  - rewrite flat_map_app. cbn [flat_map item_toks app]. f_equal. f_equal.
-    induction IH as [|x l Hx Hl IHl]; [reflexivity|]. cbn [flat_map]. rewrite flat_map_app, Hx, IHl. reflexivity.
-  - destruct (contains_lt s); reflexivity.
-Qed.
 Lemma doc_items_bytes doc : items_bytes (doc_items doc) = ser_forest doc.
 Proof.
   induction doc as [|n doc IH]; [reflexivity|]. unfold doc_items, items_bytes, ser_forest in *. cbn [flat_map].
   rewrite flat_map_app. fold (items_bytes (node_items n)). rewrite node_items_bytes, IH. reflexivity.
-Qed.
-Lemma doc_items_toks doc : items_toks (doc_items doc) = forest_tokens lower doc.
-Proof.
-  induction doc as [|n doc IH]; [reflexivity|]. unfold doc_items, items_toks, forest_tokens in *. cbn [flat_map].
-  rewrite flat_map_app. fold (items_toks (node_items n)). rewrite node_items_toks, IH. reflexivity.
 Qed.
 
 (* ------------------------------------------------------------------------------------------ facts about the states after a text *)
@@ -541,6 +537,36 @@ Lemma segs_other_app a b Z : segs (DOther (a ++ b) :: Z) = segs (DOther a :: DOt
 Proof. cbn [segs]. destruct (segs Z). rewrite app_assoc. reflexivity. Qed.
 Lemma segs_cons t X Y : segs X = segs Y -> segs (t :: X) = segs (t :: Y).
 Proof. intros E. apply (segs_app_l [t]). exact E. Qed.
+
+(* the tokens of the items are the token stream of the tree, up to the [DOther []] of the empty raw-text elements
+   (invisible to [segs], hence to the token automaton: HtmlBridge.run_tokens_equiv) *)
+Lemma raw_toks_segs t s Z :
+  segs (raw_toks t s ++ Z) = segs ([DStart (lower t) (open_tag t []); DOther s; DEnd (lower t) (close_tag t)] ++ Z).
+Proof.
+  destruct s as [|c s']; [|reflexivity]. cbn [raw_toks app]. apply segs_cons. symmetry. apply segs_other_nil.
+Qed.
+Lemma items_toks_app L1 L2 : items_toks (L1 ++ L2) = items_toks L1 ++ items_toks L2.
+Proof. apply flat_map_app. Qed.
+Lemma node_items_toks n : forall Z, segs (items_toks (node_items n) ++ Z) = segs (doc_tokens lower n ++ Z).
+Proof.
+  induction n as [t a ch IH|t a|t a|s|s|t s] using node_ind2; intros Z; cbn [node_items doc_tokens].
+  - change (IUnit (open_tag t a) [DStart (lower t) (open_tag t a)] :: flat_map node_items ch ++ [IUnit (close_tag t) [DEnd (lower t) (close_tag t)]])
+      with ([IUnit (open_tag t a) [DStart (lower t) (open_tag t a)]] ++ flat_map node_items ch ++ [IUnit (close_tag t) [DEnd (lower t) (close_tag t)]]).
+    rewrite !items_toks_app. unfold items_toks at 1 3. cbn [flat_map item_toks app]. apply segs_cons.
+    rewrite <- !app_assoc. generalize ([DEnd (lower t) (close_tag t)] ++ Z) as W.
+    induction IH as [|x l Hx Hl IHl]; intros W; [reflexivity|]. cbn [flat_map].
+    rewrite items_toks_app, <- !app_assoc, Hx. apply segs_app_l. apply IHl.
+  - reflexivity.
+  - reflexivity.
+  - destruct (contains_lt s); reflexivity.
+  - reflexivity.
+  - unfold items_toks. cbn [flat_map item_toks]. rewrite app_nil_r. apply raw_toks_segs.
+Qed.
+Lemma doc_items_toks doc : segs (items_toks (doc_items doc)) = segs (forest_tokens lower doc).
+Proof.
+  induction doc as [|n doc IH]; [reflexivity|]. unfold doc_items, forest_tokens in *. cbn [flat_map].
+  rewrite items_toks_app, node_items_toks. apply segs_app_l. exact IH.
+Qed.
 
 Theorem compose : forall L pre tx s,
   forallb item_ok L = true -> text_ok tx = true -> neutral (length pre) s ->
@@ -640,7 +666,7 @@ Proof.
   intros Hok. destruct (compose (doc_items doc) [] [] (new_fragment lower []) Hok eq_refl st0_neutral) as (toks & Hrun & Hsegs).
   exists toks. cbn [app] in Hrun. rewrite doc_items_bytes in Hrun. split.
   - unfold tokenize. apply Hrun. pose proof (need_bound (doc_items doc) [] Hok) as Hb. rewrite doc_items_bytes in Hb. cbn [length] in Hb. lia.
-  - rewrite Hsegs, segs_other_nil, doc_items_toks. reflexivity.
+  - rewrite Hsegs, segs_other_nil. apply doc_items_toks.
 Qed.
 
 Theorem tokenizes_as_units doc : doc_ok doc = true -> tokenizes_as lower doc.
